@@ -70,6 +70,12 @@ def children(schedule, obs, menu, fault_kinds):
     inj = list(schedule.get("injections", ()))
     faults = dict(schedule.get("faults", {}))
     last_pos, last_istep, last_fstep = last_deviation_step(schedule, obs)
+    # a pseudo entry ("@once", kind, ...) in the menu: those kinds appear at most once per schedule
+    once = set()
+    for ev in menu:
+        if ev[0] == "@once":
+            once.update(ev[1:])
+    menu = [ev for ev in menu if ev[0] != "@once" and not (ev[0] in once and any(e[0] == ev[0] for _, e in inj))]
     # injections: at positions not earlier than the last injection and strictly after the last fault's handle
     for p in obs.positions:
         if tuple(p) < tuple(last_pos):
